@@ -1,5 +1,6 @@
 import Sparrow.Model.Collect
 import Sparrow.Model.Bake
+import Sparrow.Model.Source
 import Driver.Parse
 open Sparrow Driver
 
@@ -41,7 +42,7 @@ def cmdCollect : P String := do
   let dist ← flts p
   let e ← flts (p * s)
   let f := collectRollF s (fun i => binCeil (dist.getD i 0) c dt)
-    (fun i => Float.exp (-att * dist.getD i 0))
+    (fun i => receiverWeight att (dist.getD i 0))
     (fun i t => if t < s then e.getD (i * s + t) 0 else 0)
   let mut out := Array.mkEmpty (p * s)
   for i in [0:p] do
@@ -186,12 +187,24 @@ def cmdPatchwise : P String := do
     (fun j dd t => if dd < d ∧ t < s then e.getD ((j * d + dd) * s + t) 0 else 0)
     (fun j => ridx.getD j 0) (fun j => gw.getD j 0)
     (fun i => binCeil (dist.getD i 0) c dt)
-    (fun i => Float.exp (-att * dist.getD i 0))
+    (fun i => receiverWeight att (dist.getD i 0))
   let mut out := Array.mkEmpty (p * s)
   for i in [0:p] do
     for t in [0:s] do
       out := out.push (f i t)
   return "ok " ++ fmtFloats out
+
+/-- `direct r m c dt` → `ok value | bin` -/
+def cmdDirect : P String := do
+  let r ← flt; let m ← flt; let c ← flt; let dt ← flt
+  return "ok " ++ hexOfFloat (directSound r m) ++ " | " ++ toString (binFloor r c dt)
+
+/-- `srcenergy vis d hasAtt m pt` → `ok energy distance` -/
+def cmdSrcEnergy : P String := do
+  let vis ← nat; let d ← flt; let hasAtt ← nat; let m ← flt; let pt ← flt
+  let att := if hasAtt != 0 then some m else none
+  return "ok " ++ hexOfFloat (sourceEnergy (vis != 0) d att pt) ++ " " ++
+    hexOfFloat (sourceDistance (vis != 0) d)
 
 def dispatch (cmd : String) : P String :=
   match cmd with
@@ -201,6 +214,8 @@ def dispatch (cmd : String) : P String :=
   | "adddir" => cmdAddDir
   | "ridx" => cmdRidx
   | "patchwise" => cmdPatchwise
+  | "direct" => cmdDirect
+  | "srcenergy" => cmdSrcEnergy
   | "shift" => cmdShift false
   | "roll" => cmdShift true
   | "ping" => pure "ok pong"
